@@ -35,6 +35,7 @@ Definition active (c : cstate) : bool := negb (c_undesired c) && negb (c_hpgone 
 Inductive op :=
 | OConnect (id : N) (auto bygadget : bool)
 | ODisconnect (id : N) (forget autodisc byhotplug : bool)
+| ORemove         (* removal of the plug snap: auto-disconnect -> disconnect tasks; snap leaves snapstate; remove-profiles; discard-conns *)
 | OAutoConnect.   (* setup-profiles + auto-connect of the plug snap (what a refresh / install does at the interface level) *)
 
 (* where the change fails: nowhere; at a task before the main one (prepare-* / disconnect-* hook); inside the main task,
@@ -48,6 +49,7 @@ Definition creates (s : st) (o : op) : bool :=
   | OConnect id _ _ => match lookup (s_conns s) id with Some c => negb (active c) | None => true end
   | ODisconnect id forget _ _ => forget || mem id (s_repo s)
   | OAutoConnect => true
+  | ORemove => true
   end.
 
 (* doConnect. Result: new state, saved old-conn, success *)
@@ -152,10 +154,33 @@ Definition run_autoconnect (s : st) (f : fail) : st * bool * bool :=
             end
   end.
 
+(* ------------------------------------------------------------------ removal of the plug snap
+   doAutoDisconnect injects one disconnect task (auto-disconnect flag: the entry is deleted, never marked undesired; hooks
+   carry IgnoreError) per repository connection of the snap; doRemoveProfiles disconnects what is left, removes the snap from
+   the repository and its profiles; doDiscardConns deletes every remaining conns entry naming the snap (remembering them
+   for undoDiscardConns). In this world every connection id names the plug snap. Failure points: before / after (then
+   undoDiscardConns restores the remembered entries, doSetupProfiles - the undo of remove-profiles - re-adds the snap and
+   reloads its connections, undoDisconnect reconnects and restores each deleted entry).
+   The state after a SUCCESSFUL removal is final: the model's world has both snaps installed. *)
+Definition run_remove (s : st) (f : fail) : st * bool * bool :=
+  let ids := s_repo s in
+  match f with
+  | FailBefore => (s, true, true)
+  | FailAfter =>
+      (* after the disconnect tasks and discard-conns: conns = []; undo: *)
+      let rest := fold_left del ids (s_conns s) in               (* what discard-conns had removed, restored *)
+      let repo0 := active_ids rest in                            (* doSetupProfiles: reloadConnections *)
+      let repo1 := fold_left (fun r id => add id r) ids repo0 in (* undoDisconnect of every injected task *)
+      (mkSt (s_conns s) repo1 (if is_nil ids then repo0 else repo1)
+            (if is_nil ids then (if is_nil repo0 then s_profp s else repo0) else repo1), true, true)
+  | _ => (mkSt [] [] [] (if is_nil ids then s_profp s else []), true, false)
+  end.
+
 (* one change: (state after settle, change was created, change ended in Error) *)
 Definition run_change (s : st) (o : op) (f : fail) : st * bool * bool :=
   match o with
   | OAutoConnect => run_autoconnect s f
+  | ORemove => run_remove s f
   | _ =>
   if negb (creates s o) then (s, false, false)
   else
@@ -163,13 +188,13 @@ Definition run_change (s : st) (o : op) (f : fail) : st * bool * bool :=
     let '(s1, old, ok) := match o with
                           | OConnect id auto byg => do_connect s id auto byg k
                           | ODisconnect id forget ad bh => do_disconnect s id forget ad bh k
-                          | OAutoConnect => (s, None, true)
+                          | OAutoConnect | ORemove => (s, None, true)
                           end in
     match f with
     | FailBefore => (s, true, true)
     | FailAfter =>
         if ok then (match o with OConnect id _ _ => undo_connect s1 id old | ODisconnect id _ _ _ => undo_disconnect s1 id old
-                                 | OAutoConnect => s1 end, true, true)
+                                 | OAutoConnect | ORemove => s1 end, true, true)
         else (s1, true, true)
     | _ => (s1, true, negb ok)
     end
@@ -184,7 +209,7 @@ Fixpoint reload (c : list (N * cstate)) : list N :=
   match c with [] => [] | (id, v) :: r => if active v then add id (reload r) else reload r end.
 
 (* ------------------------------------------------------------------ the known failing classes (KNOWN_FINDINGS), as a guard *)
-Definition op_id (o : op) : N := match o with OConnect id _ _ => id | ODisconnect id _ _ _ => id | OAutoConnect => 0 end.
+Definition op_id (o : op) : N := match o with OConnect id _ _ => id | ODisconnect id _ _ _ => id | OAutoConnect | ORemove => 0 end.
 Definition excluded (s : st) (o : op) (f : fail) : bool :=
   match o, f with
   | ODisconnect id _ _ _, FailMain k => mem id (s_repo s) && (k =? 2)                  (* plug snap profile regenerated without it, then reconnect *)
@@ -194,6 +219,7 @@ Definition excluded (s : st) (o : op) (f : fail) : bool :=
   | ODisconnect id forget _ _, FailAfter => forget && negb (mem id (s_repo s))          (* undo of forgetting an inactive connection reconnects it *)
   (* auto-connect from a state without any active connection, failing after the new connections' profiles were written:
      the undo regenerates the plug snap's profiles only, the slot snap keeps rules for the undone connections *)
+  | ORemove, FailMain _ => true     (* a security setup failing inside one of the injected disconnect tasks: not modelled *)
   | OAutoConnect, FailAfter => is_nil (active_ids (s_conns s)) && negb (is_nil (newids s))
   | OAutoConnect, FailMain k => is_nil (active_ids (s_conns s)) && negb (is_nil (newids s)) && (k =? 2)
   | _, _ => false
